@@ -198,6 +198,15 @@ pub fn gen_program(r: &mut Rng, cfg: &GenCfg) -> Vec<Op> {
             o.via_path = Some(p);
         }
         used.push(name.clone());
+        // encryption is an option of EVERY entry-creating call (one FileOptions value reused for a whole
+        // tree): directories, symlinks, aligned and extra-data entries get a password now and then too
+        if k_enc && kind <= 6 && r.chance(1, 5) {
+            o.password = Some(Hex(match r.below(3) {
+                0 => b"password".to_vec(),
+                1 => vec![0, 0x80, 0xff],
+                _ => r.rbytes(0, 12),
+            }));
+        }
         match kind {
             0 | 1 if k_dir => ops.push(Op::AddDir { name, o }),
             2 if k_sym => ops.push(Op::AddSymlink { name, target: gen_name(r, &used, false), o }),
